@@ -129,6 +129,12 @@ Qed.
 Lemma init_config_chans p : chans (init_config p) = fold_left chan_step (init_pairs p) ∅.
 Proof. reflexivity. Qed.
 
+Lemma init_buffers_empty p : buffers_empty (init_config p).
+Proof.
+  intros k st Hk. rewrite init_config_chans in Hk. apply fold_chan_lookup in Hk.
+  destruct Hk as [->|Hk]; [reflexivity|rewrite lookup_empty in Hk; discriminate].
+Qed.
+
 (* ------------------------------------------------------------------ lookups in the initial typing *)
 Lemma tops_from_lookup k l i x : tops_from k l !! i = Some x ->
   exists pr, l !! i = Some pr /\ x = (prov1 pr, chname (k + i) (prov1 pr), pr_type pr).
